@@ -121,6 +121,10 @@ def make_generated(rng, kind):
                         argv=["haplotag", "-o", "{out:tagged.bam}", "--output-haplotag-list", "{out:list.tsv}", "--reference", "{W}/ref.fa",
                               "--ignore-read-groups", "--sample", w["samples"][-1], "--sample", w["samples"][0],
                               "--output-threads", "{othreads}", "{W}/phased.vcf.gz", "{W}/reads.bam"]))
+        if len(w["chroms"]) > 1:
+            out.append(dict(base, name="gen-stats-indexed-chromosome", subcommand="stats", stdout="text",
+                            argv=["stats", "--tsv", "{out:stats.tsv}", "--block-list", "{out:blocks.tsv}", "--chromosome", w["chroms"][-1]["name"],
+                                  "--chromosome", w["chroms"][0]["name"], "--sample", w["samples"][0], "{W}/phased.vcf.gz"]))
         out.append(dict(base, name="gen-haplotag-collide-gzlist", subcommand="haplotag",
                         argv=["haplotag", "-o", "{out:tagged.bam}", "--output-haplotag-list", "{out:list.tsv.gz}", "--no-reference",
                               "--tag-supplementary", "--output-threads", "{othreads}", "{W}/phased.vcf.gz", "{W}/reads.bam"]))
@@ -348,8 +352,8 @@ def materialise_world(sc, dirpath):
 def draw_config(rng, reference=False, allow=None):
     if reference:
         return {"threads": 1, "othreads": 1, "pool": {"mode": "fifo", "script": [], "seed": 0},
-                "clock": {"enabled": [], "script": [], "seed": 0}, "repeat": "none", "env": {}}
-    allow = allow or {"threads", "othreads", "pool", "clock", "repeat", "env"}
+                "clock": {"enabled": [], "script": [], "seed": 0}, "repeat": "none", "env": {}, "debug": False}
+    allow = allow or {"threads", "othreads", "pool", "clock", "repeat", "env", "debug"}
     cfg = draw_config(rng, reference=True)
     if "threads" in allow:
         cfg["threads"] = rng.choice([1, 2, 2, 3, 4, 5])
@@ -366,6 +370,8 @@ def draw_config(rng, reference=False, allow=None):
         # the process environment is not an input either
         cfg["env"] = rng.choice([{}, {}, {"TZ": "Pacific/Kiritimati"}, {"TZ": "America/St_Johns"}, {"LC_ALL": "C"}, {"LC_ALL": "C.UTF-8", "LANG": "C.UTF-8"},
                                  {"COLUMNS": "37", "LINES": "9"}, {"TMPDIR": "{node}/tmp"}, {"HOME": "{node}/home"}, {"USER": "someoneelse", "LOGNAME": "someoneelse"}])
+    if "debug" in allow:
+        cfg["debug"] = rng.random() < 0.3  # whatshap --debug <subcommand>: verbosity is not an input
     return cfg
 
 
@@ -409,9 +415,10 @@ def gen_case(rng, tier, catalogue):
         ref = k < 2
         hs = 0 if ref else rng.choice([1, 2, 3, 5, 7, 11, 13, 42, 123, 1000, 4242, 65537, rng.randrange(1, 2**32 - 1)])
         # swarm: each faulted node enables a random subset of fault dimensions
-        allow = None if ref else {d for d in ("threads", "othreads", "pool", "clock", "repeat", "env") if rng.random() < 0.7}
+        allow = None if ref else {d for d in ("threads", "othreads", "pool", "clock", "repeat", "env", "debug") if rng.random() < 0.7}
+        mtime = None if ref else rng.choice([None, None, "data-newer", "index-newer"])
         cfgs = [draw_config(rng, reference=ref, allow=allow) for _ in chosen]
-        nodes.append({"hashseed": hs, "configs": cfgs})
+        nodes.append({"hashseed": hs, "configs": cfgs, "mtime": mtime})
     return {"scenarios": chosen, "worlds": worlds, "nodes": nodes}
 
 
@@ -445,10 +452,23 @@ def run_nodes(case, casedir, scratch, node_indices=None, timeout=900):
         os.makedirs(nd)
         _symlink_tree(data_src, os.path.join(nd, "data"))
         for wi in range(len(case.get("worlds", []))):
-            _symlink_tree(os.path.join(wroot, "w%d" % wi), os.path.join(nd, "w%d" % wi))
+            if node.get("mtime"):
+                # same bytes, other modification times: copies whose data files are newer than their indexes, or the reverse
+                dst = os.path.join(nd, "w%d" % wi)
+                shutil.copytree(os.path.join(wroot, "w%d" % wi), dst)
+                base_t = 1_600_000_000
+                for fn in sorted(os.listdir(dst)):
+                    is_index = fn.endswith((".tbi", ".csi", ".bai", ".fai", ".crai"))
+                    newer = (node["mtime"] == "index-newer") == is_index
+                    t = base_t + (5000 if newer else 0)
+                    os.utime(os.path.join(dst, fn), (t, t))
+            else:
+                _symlink_tree(os.path.join(wroot, "w%d" % wi), os.path.join(nd, "w%d" % wi))
         scs = []
         for sc, cfg in zip(case["scenarios"], node["configs"]):
             argv = [a.replace("{W}", "{w%d}" % sc["w"]) if "w" in sc else a for a in sc["argv"]]
+            if cfg.get("debug"):
+                argv = ["--debug"] + argv
             scs.append({"idx": sc["idx"], "name": sc["name"], "argv": argv, "stdout": sc.get("stdout"), "config": cfg})
         job = {"node": k, "node_dir": nd, "scenarios": scs, "census": {"samples": names, "tags": ["HP", "PS", "PQ", "GT", "GQ", "DP"]}, "timeout": 150}
         jp = os.path.join(nd, "job.json")
@@ -496,7 +516,8 @@ def first_diff(casedir, k0, k1, idx, name):
 def describe_cfg(node, cfg):
     return "hashseed=%s threads=%d out-threads=%d pool=%s clock=%s repeat=%s%s" % (
         node["hashseed"], cfg["threads"], cfg["othreads"], cfg["pool"]["mode"], "+".join(cfg["clock"]["enabled"]) or "monotone", cfg["repeat"],
-        " env=%s" % ",".join("%s=%s" % kv for kv in sorted(cfg.get("env", {}).items())) if cfg.get("env") else "")
+        (" env=%s" % ",".join("%s=%s" % kv for kv in sorted(cfg.get("env", {}).items())) if cfg.get("env") else "")
+        + (" --debug" if cfg.get("debug") else "") + (" mtimes=%s" % node["mtime"] if node.get("mtime") else ""))
 
 
 def blame(node, cfg):
@@ -516,6 +537,10 @@ def blame(node, cfg):
         dims.append("repeat")
     if cfg.get("env"):
         dims.append("env")
+    if cfg.get("debug"):
+        dims.append("debug")
+    if node.get("mtime"):
+        dims.append("mtime")
     return dims
 
 
@@ -624,6 +649,10 @@ class NodeEngine(Engine):
                         stats.inc("fault_repeat-" + cfg["repeat"])
                     for ek in sorted(cfg.get("env", {})):
                         stats.inc("fault_env-" + ek)
+                    if cfg.get("debug"):
+                        stats.inc("fault_debug-logging")
+                    if node.get("mtime") and "w" in sc:
+                        stats.inc("fault_mtime-" + node["mtime"])
                     if node["hashseed"] != 0:
                         stats.inc("fault_hashseed-change")
                     if cfg["threads"] != 1 and "{threads}" in sc["argv"]:
@@ -717,8 +746,12 @@ class NodeEngine(Engine):
                 c = copy.deepcopy(case)
                 c["nodes"][k]["hashseed"] = 0
                 yield c
+            if n.get("mtime"):
+                c = copy.deepcopy(case)
+                c["nodes"][k]["mtime"] = None
+                yield c
             for i, cfg in enumerate(n["configs"]):
-                for key in ("repeat", "clock", "pool", "othreads", "threads", "env"):
+                for key in ("repeat", "clock", "pool", "othreads", "threads", "env", "debug"):
                     if cfg.get(key, refcfg[key]) != refcfg[key]:
                         c = copy.deepcopy(case)
                         c["nodes"][k]["configs"][i][key] = copy.deepcopy(refcfg[key])
